@@ -78,10 +78,6 @@ Variants(t) ==
     [] t.k = "dbl" /\ t.sp -> DblSpellings(t)
     [] OTHER -> <<t.t>>
 SepNone == 3
-\* the documents with their spelling tables (constant level, evaluated once): D.vt[i] = Variants(D.toks[i])
-\* (TLCEval forces the lazily evaluated function constructors, otherwise they are re-evaluated on every use)
-Docs == TLCEval([k \in 1..NDocs |->
-           TLCEval(RawDocs[k] @@ [vt |-> TLCEval([i \in 1..Len(RawDocs[k].toks) |-> Variants(RawDocs[k].toks[i])])])])
 
 -----------------------------------------------------------------------------
 (* what the AST must contain -- a function of the program model only *)
@@ -123,6 +119,13 @@ CanonGap(D, i) == IF i = 1 THEN GEmpty
                   ELSE IF D.toks[i].nl THEN GNewline ELSE GSpace
 CanonLay(D) == [i \in 1..N(D) + 1 |-> CanonGap(D, i)]
 CanonVar(D) == [i \in 1..N(D) |-> 1]
+
+\* the documents with their spelling tables and canonical vectors (constant level, evaluated once; TLCEval forces the
+\* lazily evaluated function constructors, which would otherwise be re-evaluated on every use):
+\*   D.vt[i] = Variants(D.toks[i]), D.cl = CanonLay(D), D.cv = CanonVar(D)
+Docs == TLCEval([k \in 1..NDocs |->
+           TLCEval(RawDocs[k] @@ [vt |-> TLCEval([i \in 1..Len(RawDocs[k].toks) |-> Variants(RawDocs[k].toks[i])]),
+                                  cl |-> TLCEval(CanonLay(RawDocs[k])), cv |-> TLCEval(CanonVar(RawDocs[k]))])])
 
 Omitted(D, var, i) == D.toks[i].k = "sep" /\ var[i] = SepNone
 RECURSIVE PrevEmitted(_, _, _)
